@@ -58,3 +58,7 @@ CHECKS["C03"] = {
          "trees, every 1-slot (2-slot) schedule, through the real engine. Origin side unchanged across every engine step, exact mirror without '.conflicted' at quiescence, and no "
          "provider write in three further rounds.",
  "technique": "bounded exhaustive exploration; one-sided operation histories and schedule slots are z3 integer choices enumerated by solver-decided branching over the real engine; per-step origin snapshot, mirror and echo oracles"}
+CHECKS["C04"] = {
+ "text": "Exhaustive bounded exploration with a solver-expressed disjointness constraint (M2): per-side operation sequences (1+1, 2+1; thorough 2+2) over 14 operation kinds whose touched "
+         "object sets are constrained disjoint in z3, every interleaving and schedule slot, through the real engine; both quiet-state trees must equal base + both deltas exactly.",
+ "technique": "bounded exhaustive exploration; per-side operation indices are z3 integers under a disjointness constraint, interleavings and slots enumerated by solver-decided branching over the real engine; reference-tree oracle"}
